@@ -720,7 +720,7 @@ func settle() {
 	// timer has fired the earlier ones have too) and waits for quiescence again, twice.
 	if sleepers > 0 {
 		for round := 0; round < 2; round++ {
-			time.Sleep(4*qa.AddwSleep + time.Millisecond)
+			time.Sleep(3*qa.AddwSleep + time.Millisecond)
 			settleWith(settler)
 		}
 	}
@@ -1623,7 +1623,8 @@ func raceProd(rng *rand.Rand, kind string, rcap int) (plan []act) {
 		plan = append(plan, act{Act: qa.Act{Op: "paddw", Lane: "req", V: next()}, P: p})
 	}
 	for round := 0; round < 2; round++ {
-		if round == 0 && rng.Intn(3) == 0 {
+		mode := rng.Intn(4) // round 0: 0 = close-and-drain burst, 1 = race with a close, else Pops only
+		if round == 0 && mode == 0 {
 			// one goroutine closes and at once takes items out with PopAnyway: the producers woken by the
 			// close find room in a closed queue
 			b := act{Act: qa.Act{Op: "burst"}, C: 1}
@@ -1635,8 +1636,8 @@ func raceProd(rng *rand.Rand, kind string, rcap int) (plan []act) {
 			continue
 		}
 		r := act{Act: qa.Act{Op: "race"}}
-		closing := round == 0 && rng.Intn(2) == 0
-		for c, n := 1, 1+rng.Intn(3); c <= n; c++ {
+		closing := round == 0 && mode == 1
+		for c, n := 1, 2+rng.Intn(2); c <= n; c++ { // two or three consumers: the second one may find the queue empty
 			// beside a close only PopAnyway still makes room (for a producer that must NOT use it)
 			r.Acts, r.RC = append(r.Acts, qa.Act{Op: "pop", Any: closing || rng.Intn(2) == 0}), append(r.RC, c)
 		}
@@ -1802,17 +1803,39 @@ func main() {
 	}
 	w := create(*out)
 	// independent worlds run in lock-step batches (one global quiescence per step of the batch)
-	var batch []spec
+	// worlds whose plan has producers (AddAnyway may sleep inside the call: quiescence costs a few
+	// poll periods more, see settle) are batched apart from the others
+	var batch, pbatch []spec
 	flush := func() {
 		if len(batch) > 0 {
 			runBatch(w, batch)
 			batch = nil
 		}
+		if len(pbatch) > 0 {
+			runBatch(w, pbatch)
+			pbatch = nil
+		}
 	}
 	queue := func(sp spec) {
+		prod := false
+		for _, a := range sp.plan {
+			prod = prod || a.Op == "paddw"
+			for i, x := range a.Acts {
+				prod = prod || (x.Op == "paddw" && i < len(a.RC))
+			}
+		}
+		if prod {
+			pbatch = append(pbatch, sp)
+			if len(pbatch) >= *nbatch {
+				runBatch(w, pbatch)
+				pbatch = nil
+			}
+			return
+		}
 		batch = append(batch, sp)
 		if len(batch) >= *nbatch {
-			flush()
+			runBatch(w, batch)
+			batch = nil
 		}
 	}
 	if *plans != "" {
